@@ -145,6 +145,17 @@ CLAIMED["C15"] = dict(
            "order-normalised or order-independent. Not decided: equality of results across call histories (runtime)."),
     note=_NOTE, technique="static analysis: hidden-state census over rustc's static tables, who-writes rules, guard construction / drop (incl. unwind-edge) dominance on MIR")
 
+CLAIMED["C16"] = dict(
+    level=("Static decision of the structural clauses: both mark-to-location constructors agree on line() unchanged, col() + 1 and "
+           "index() as character offset, with byte info only from the parser's byte offsets; the span-carrying wrapper captures "
+           "definition site and use site before the visitor runs; every element / value / variant-payload site (4 default, 7 with "
+           "features) captures both locations before the nested deserialization and maps its error through "
+           "attach_alias_locations_if_missing in (use-site, definition-site) order; for each of the 49 error variants carrying a "
+           "location, with_location writes it and location() / locations() read it; serde's five static constructors attach the "
+           "fallback location. Declared not applicable: that coordinates denote the same text position, span == node text, "
+           "use/definition correctness through arbitrary nesting (runtime facts about parser marks)."),
+    note=_NOTE, technique="static analysis: sibling agreement of constructors, capture-before-consume dominance, per-variant get/set table from MIR + ADT facts")
+
 NOT_APPLICABLE = {("C%02d" % i): _NB for i in range(1, 21) if ("C%02d" % i) not in CLAIMED}
 
 CLAIMED["C10"] = dict(
@@ -273,5 +284,16 @@ CLAIMED["C15"] = dict(
            "(matcher self-checked); user code runs only inside a scope; every iteration over a randomly seeded hash collection is "
            "order-normalised or order-independent. Not decided: equality of results across call histories (runtime)."),
     note=_NOTE, technique="static analysis: hidden-state census over rustc's static tables, who-writes rules, guard construction / drop (incl. unwind-edge) dominance on MIR")
+
+CLAIMED["C16"] = dict(
+    level=("Static decision of the structural clauses: both mark-to-location constructors agree on line() unchanged, col() + 1 and "
+           "index() as character offset, with byte info only from the parser's byte offsets; the span-carrying wrapper captures "
+           "definition site and use site before the visitor runs; every element / value / variant-payload site (4 default, 7 with "
+           "features) captures both locations before the nested deserialization and maps its error through "
+           "attach_alias_locations_if_missing in (use-site, definition-site) order; for each of the 49 error variants carrying a "
+           "location, with_location writes it and location() / locations() read it; serde's five static constructors attach the "
+           "fallback location. Declared not applicable: that coordinates denote the same text position, span == node text, "
+           "use/definition correctness through arbitrary nesting (runtime facts about parser marks)."),
+    note=_NOTE, technique="static analysis: sibling agreement of constructors, capture-before-consume dominance, per-variant get/set table from MIR + ADT facts")
 
 NOT_APPLICABLE = {("C%02d" % i): _NB for i in range(1, 21) if ("C%02d" % i) not in CLAIMED}
